@@ -113,11 +113,86 @@ def jobs(tier, seed):
             for n in ((1, 2, 3) if cls == 'Derivative' else (1,)):
                 out.append(('%s-switched-%s-to-%s-n%d' % (cls[0], prev, method, n),
                             dict(cls=cls, method=method, n=n, order=2, shape=[] if cls == 'Derivative' else [2], stepmode='default', prev=prev)))
+    for method in ('forward', 'central', 'complex'):
+        out.append(('nested-%s' % method, dict(cls='Nested', method=method, n=1, order=2, shape=[3], stepmode='scalar')))
     out.append(('FP-lemmas', dict(cls='FP', method='', n=0, order=0, shape=[], stepmode=tier)))
     return out
 
 
 # --------------------------------------------------------------------------
+def _nested_records(nd, method, h_out, h_in, xvals):
+    """Jacobian of (the Gradient of f): the inner Gradient is called while the outer difference function is suspended at one
+    of its evaluation points.  -> list of (base point the inner object was called at, inner evaluation point)"""
+    core = cm.nd_mods()['core']
+    mc = cm.nd_mods()['mc']
+    rec = []
+    cur = [None]
+    info = core._Limit.info
+
+    def fake_extrapolate(results, steps, shp):
+        z = np.zeros(shp)
+        return z, info(z, z, np.zeros(shp, dtype=int))
+
+    def f(p):
+        if isinstance(p, mc.Bicomplex):
+            raise sn.Unsupported('nested job does not use multicomplex')
+        rec.append((cur[0], np.array(p, copy=True)))
+        return 0.0
+
+    inner = nd.Gradient(f, step=h_in, method=method)
+    inner._extrapolate = fake_extrapolate
+
+    def g(x):
+        cur[0] = np.array(x, copy=True)
+        return inner(x)
+    outer = nd.Jacobian(g, step=h_out, method='forward')
+    outer._extrapolate = fake_extrapolate
+    with cm.quiet():
+        outer(xvals)
+    return rec
+
+
+def nested(job, method):
+    """re-entrant use: every evaluation of the INNER object moves exactly one coordinate of the point the inner object was
+    called at, by one of the inner steps (shared work buffers of the difference functions would leak the outer perturbation)"""
+    nd = cm.nd_mods()['nd']
+    h_out, h_in = sn.real_var('h_out'), sn.real_var('h_in')
+    x = np.array([0.5, -0.75, 1.25])
+    pre = [h_out.t > 0, h_in.t > 0, h_out.t != h_in.t]
+
+    def harness():
+        with tr.traced():
+            return _nested_records(nd, method, h_out, h_in, x)
+    p = sn.run_single(harness, assumptions=pre)
+    job.paths += 1
+    if p.exc is not None:
+        if isinstance(p.exc, sn.Unsupported):
+            raise p.exc
+        job.violation('raises', dict(key='C05:nested:%s:raises' % method, kind='nested', exc=repr(p.exc)[:200]))
+        return
+    rec = p.result
+    job.confirm('inner evaluations recorded', len(rec) > 3)
+    for base, pt in rec:
+        bl, pl = cm.flat_list(base), cm.flat_list(pt)
+        moved = []
+        for j in range(len(bl)):
+            a, b = sn.as_symc(pl[j]), sn.as_symc(bl[j])
+            dr = z3.simplify(sn.lift(a.re) - sn.lift(b.re))
+            di = z3.simplify(sn.lift(a.im) - sn.lift(b.im))
+            if not (z3.is_rational_value(dr) and dr.as_fraction() == 0 and z3.is_rational_value(di) and di.as_fraction() == 0):
+                moved.append((j, dr, di))
+        ok = len(moved) <= 1
+        if ok and moved:
+            j, dr, di = moved[0]
+            # the displacement is a multiple of the inner step only (no trace of the outer step)
+            used = sn.term_vars(dr) | sn.term_vars(di)
+            ok = 'h_out' not in used
+        if not job.confirm('inner evaluation moves one coordinate by an inner step', ok):
+            job.violation('nested', dict(key='C05:nested:%s:inner-evaluation-moves-several-coordinates' % method, kind='nested', method=method,
+                                         moved=[int(j) for j, _a, _b in moved]))
+            return
+
+
 def _step_arg(stepmode, h0, nd):
     """the ``step`` argument / step options for a mode; h0 symbolic or float"""
     if stepmode == 'default':
@@ -236,6 +311,8 @@ def _t(v):
 def run_job(job, cls, method, n, order, shape, stepmode, prev=None):
     if cls == 'FP':
         return fp_lemmas(job, stepmode)
+    if cls == 'Nested':
+        return nested(job, method)
     cfg = dict(cls=cls, method=method, n=n, order=order, shape=shape, stepmode=stepmode, prev=prev)
     size = int(np.prod(shape)) if shape else 1
     xs = [sn.real_var('x%d' % i) for i in range(size)]
@@ -538,6 +615,17 @@ def replay(cex):
     cfg = cex['config']
     if cfg['cls'] == 'FP':
         return None, 'floating-point lemma counterexample (no library call to replay): %s' % cex.get('obligation')
+    if cfg['cls'] == 'Nested':
+        nd = cm.nd_mods()['nd']
+        x = np.array([0.5, -0.75, 1.25])
+        rec = _nested_records(nd, cfg['method'], 0.5, 2.0 ** -10, x)
+        for base, pt in rec:
+            d = np.asarray(pt) - np.asarray(base)
+            nz = np.flatnonzero(d != 0)
+            if len(nz) > 1 or (len(nz) == 1 and abs(d[nz[0]]) > 2.0 ** -9):
+                return True, ('Jacobian(Gradient(f, step=2**-10, method=%s), step=0.5): the inner Gradient, called at %r, evaluates f at %r '
+                              '(displacement %r)' % (cfg['method'], np.asarray(base).tolist(), np.asarray(pt).tolist(), d.tolist()))
+        return False, 'inner evaluations move one coordinate by an inner step'
     asg = cm.assignment_from_model(cex.get('model', {}))
     size = int(np.prod(cfg['shape'])) if cfg['shape'] else 1
     xv = [float(asg.get('x%d' % i, Fraction(1, 2))) for i in range(size)]
